@@ -8,7 +8,7 @@ expressions (`next`, division, `and`/`or`).
 Cut points: function entry, loop heads (invariant from the sidecar), yields,
 returns, raises.  A callee is its contract, never its body.
 """
-import ast
+import ast, os
 import fractions
 import z3
 
@@ -382,6 +382,7 @@ class Machine:
         self.ghost = {}
         self.obligations = []
         self.counter = 0
+        self.probes = []
         self.callees = callees or {}
         self.globs = dict(globs or {})
         self.loop_ord, self.yield_ord, self.comp_ord = loop_and_yield_ordinals(fn_node)
@@ -1015,6 +1016,16 @@ class Machine:
             if isinstance(b, Ref) and b.kind == "ext":
                 r = self.heap[(b.id, "impl")].contains(self, b, a)
                 return r if isinstance(op, ast.In) else z3.Not(r)
+            if isinstance(b, Ref) and b.kind == "list" and is_z3(a):
+                # membership in a symbolic list, skolemised: w is a witness index when there is one
+                arr, ln = self.heap[(b.id, "arr")], self.heap[(b.id, "len")]
+                w, i = self.fresh("in_witness", INT), z3.Int("i!in%d" % self.counter)
+                self.counter += 1
+                av = a if a.sort() == arr.sort().range() else self.coerce_elem(a, b.elem)
+                hit = z3.And(w >= 0, w < ln, arr[w] == av)
+                self.assume(z3.Or(hit, z3.ForAll([i], z3.Implies(z3.And(i >= 0, i < ln), arr[i] != av))))
+                self.ghost["in_witness"] = w
+                return hit if isinstance(op, ast.In) else z3.Not(hit)
             if isinstance(b, tuple):
                 r = zor(*[self.compare(ast.Eq(), a, x) for x in b]) if b else False
                 if isinstance(op, ast.NotIn):
@@ -1473,7 +1484,14 @@ class Machine:
         returns (out array, count)."""
         forn, itname, n, g = self.comp_loop(node)
         cspec = self.c.comps.get(n)
-        itv = self.eval(g.iter)
+        itv = None
+        if (cspec is None and not lazy and isinstance(g.iter, ast.Call) and isinstance(g.iter.func, ast.Name)
+                and g.iter.func.id in ("xrange", "range") and g.iter.func.id not in self.locals and not g.iter.keywords):
+            rargs = [self.eval(a) for a in g.iter.args]
+            if all(isinstance(a, int) and not isinstance(a, bool) for a in rargs) and len(range(*rargs)) <= 16:
+                itv = tuple(range(*rargs))      # a concrete small range: unrolled like a concrete tuple
+        if itv is None:
+            itv = self.eval(g.iter)
         if cspec is None and isinstance(itv, tuple) and not lazy:
             vals = []
             for x in itv:
@@ -1759,7 +1777,12 @@ class Machine:
         roots = [self.locals[n] for n in used if n in self.locals] + list(extra_refs)
         roots += [self.ghost[n] for n in self.ghost]
         refs = self.reachable_refs(roots)
+        # rely stated by the contract (listed among its assumptions): these containers are not modified by
+        # anyone else while the generator is suspended; the loop body itself must not assign into them
+        frozen = {self.locals[n].id for n in getattr(self.c, "frozen", ()) if isinstance(self.locals.get(n), Ref)}
         for r in refs:
+            if r.id in frozen and not _stores_into(body_nodes, [n for n in getattr(self.c, "frozen", ()) if isinstance(self.locals.get(n), Ref) and self.locals[n].id == r.id]):
+                continue
             self.havoc_ref(r)
         for n in names:
             self.havoc_local(n)
@@ -1791,9 +1814,22 @@ class Machine:
                                 return True
         return False
 
+    def probe(self, label):
+        """development aid (PYVC_PROBES=1): is the path condition at this cut point satisfiable?"""
+        if os.environ.get("PYVC_PROBES"):
+            self.probes.append((label, list(self.pc)))
+
     def check_invs(self, n, spec, phase):
+        self.probe("loop%s/%s" % (n, phase))
         for label, text in spec.inv:
             self.oblige("loop%s/%s/%s" % (n, phase, label), self.spec(text))
+
+    def loop_ghost(self, stmts):
+        for st in stmts:
+            if callable(st):
+                st(self)
+            else:
+                self.ghost_exec(st)
 
     def s_For(self, node):
         n, spec = self.loop_spec(node)
@@ -1820,6 +1856,7 @@ class Machine:
                 return
             raise Unsupported("loop %s (line %d) has no invariant in the sidecar" % (n, node.lineno))
         self.covered.add("loop%s" % n)
+        self.loop_ghost(getattr(spec, "pre", ()))
         self.check_invs(n, spec, "init")
         self.havoc_for_loop([node], extra_refs=[it])
         for label, text in spec.inv:
@@ -1835,6 +1872,7 @@ class Machine:
                 pass
             except _Break:
                 return
+            self.loop_ghost(getattr(spec, "step", ()))
             self.check_invs(n, spec, "preserve")
             if variant0 is not None:
                 v1 = self.spec_value(spec.variant)
@@ -1884,6 +1922,8 @@ class Machine:
         extra = {"result": v, "k": self.ghost["nout"]}
         for stmt in spec.ghost_before:
             self.ghost_exec(stmt, extra)
+        for label, text in getattr(spec, "instances", ()):
+            self.assume(self.spec(text, extra))
         for label, text in spec.hints:
             h = self.spec(text, extra)
             self.oblige("yield%s/hint/%s" % (k, label), h)
@@ -1986,6 +2026,7 @@ class Machine:
 
     def on_normal_exit(self, ret):
         self.covered.add("exit")
+        self.probe("exit")
         extra = {"result": ret}
         for label, text in self.c.ensures + self.mode.ensures:
             self.oblige("exit/" + label, self.spec(text, extra))
@@ -2020,6 +2061,16 @@ class StarSeq:
 class SuperProxy:
     def __init__(self, cls, obj):
         self.cls, self.obj = cls, obj
+
+
+def _stores_into(body_nodes, names):
+    """does the loop body store into / call a method of one of these names?"""
+    for nd in body_nodes:
+        for x in ast.walk(nd):
+            if isinstance(x, (ast.Subscript, ast.Attribute)) and isinstance(x.value, ast.Name) and x.value.id in names:
+                if isinstance(x, ast.Attribute) or isinstance(x.ctx, (ast.Store, ast.Del)):
+                    return True
+    return False
 
 
 class CallRes:
@@ -2157,6 +2208,40 @@ def _sf_data_of(m, node):
     return m.heap[(v.id, "_data")]
 
 
+def _sf_iter_of(m, node):
+    """the iterator behind a value: a stream's _data, an iterator itself"""
+    v = m.eval(node.args[0])
+    if isinstance(v, Ref) and v.kind == "obj" and (v.id, "_data") in m.heap:
+        return m.heap[(v.id, "_data")]
+    return v
+
+
+def _sf_tee_child(m, node):
+    """tee_child(x, src, i): x is the i-th of the independent children itertools.tee made of src (own cursor each)"""
+    x, src, i = m.eval(node.args[0]), m.eval(node.args[1]), m.eval(node.args[2])
+    kids = m.heap.get((src.id, "tee_kids")) if isinstance(src, Ref) else None
+    return bool(kids) and isinstance(i, int) and 0 <= i < len(kids) and isinstance(x, Ref) and kids[i].id == x.id
+
+
+def _sf_fq(m, node):
+    """fq(view, k): absolute index in the source's array of output k of a filter view (ghost)"""
+    v = m.eval(node.args[0])
+    if not (isinstance(v, Ref) and (v.id, "fq") in m.heap):
+        raise Unsupported("fq of something that is not a filter view")
+    return m.heap[(v.id, "fq")](to_z3num(m.eval(node.args[1])))
+
+
+def _sf_is_filter(m, node):
+    v, src, f = m.eval(node.args[0]), m.eval(node.args[1]), m.eval(node.args[2])
+    return (isinstance(v, Ref) and (v.id, "fq") in m.heap and isinstance(src, Ref) and m.heap[(v.id, "src")].id == src.id
+            and m.heap[(v.id, "func")] is f)
+
+
+def _sf_store(m, node):
+    a, i, v = (m.eval(x) for x in node.args)
+    return z3.Store(a, i if is_z3(i) else to_z3num(i), v if is_z3(v) else to_z3num(v))
+
+
 def _sf_gen_label(m, node):
     v = m.eval(node.args[0])
     if isinstance(v, Ref) and v.kind == "gen":
@@ -2249,7 +2334,7 @@ def _sf_is_iterator(m, node):
 SPEC_FUNCS = {
     "is_iterator": _sf_is_iterator, "late_bound": _sf_late, "count": _sf_count, "data_of_iters": _sf_iters_of,
     "RINT": _sf_rint, "TRUNC": _sf_trunc, "call_of": _sf_call_of, "call_arg": _sf_call_arg,
-    "FDIV": _sf_fdiv, "is_stream": _sf_is_stream, "data_of": _sf_data_of, "gen_label": _sf_gen_label, "src_of": _sf_src_of,
+    "FDIV": _sf_fdiv, "is_stream": _sf_is_stream, "data_of": _sf_data_of, "iter_of": _sf_iter_of, "store": _sf_store, "fq": _sf_fq, "is_filter_view": _sf_is_filter, "tee_child": _sf_tee_child, "gen_label": _sf_gen_label, "src_of": _sf_src_of,
     "same": _sf_same, "captured": _sf_captured, "is_closure": _sf_is_closure,
     "forall": _sf_quant("forall"), "exists": _sf_quant("exists"), "implies": _sf_implies, "ite": _sf_ite,
     "reads": _sf_reads, "pos": _sf_reads, "length": _iter_field("len"), "finite": _sf_finite,
